@@ -201,7 +201,9 @@ class HybridCache(_CacheBase):
         scores = {
             k: self.access_weight * normalized_access_counts[k]
             + self.duration_weight * normalized_durations[k]
-            for k in self._access_counts
+            # `.keys()` and not bare iteration: a manager dict proxy that was pickled into
+            # another process cannot create the iterator proxy that `iter()` needs.
+            for k in self._access_counts.keys()  # noqa: SIM118
         }
 
         # Find the key with the lowest score
